@@ -75,7 +75,8 @@ def reachable_note_blobs(w, repo, seen):
 class C08(C02):
     id = "C08"
     families = ["commits", "partial", "partial", "amend", "amend", "rebase", "rebase_i", "fastpath", "cherry_pick",
-                "squash_merge", "reset_recommit", "stash", "switch_carry"]
+                "squash_merge", "reset_recommit", "stash", "switch_carry", "ci_rewrite", "ci_rewrite", "pull"]
+    remote_families = ("ci_rewrite", "pull")
     quick_runs, thorough_runs = 400, 6000
     quick_budget_s, thorough_budget_s = 170, 1800
     rule = ("one run = one history family (every note-writing path: commit, partial commit incl. commits that contain no "
@@ -98,6 +99,10 @@ class C08(C02):
     def header(self, rng, tier, index):
         h = super().header(rng, tier, index)
         cfg_extra, remotes, expect = CONFIGS[index % len(CONFIGS)]
+        if any(f in self.remote_families for f in h["cfg"]["families"]):
+            # these families bring their own (real, local) remote: only the configurations without remotes
+            free = [c for c in CONFIGS if not c[1]]
+            cfg_extra, remotes, expect = free[index % len(free)]
         assert effective_mode(cfg_extra, remotes) == expect
         h["world"]["prompt_storage"] = cfg_extra.get("prompt_storage", "default")
         h["world"]["config_extra"] = {k: v for k, v in cfg_extra.items() if k != "prompt_storage"}
@@ -136,9 +141,18 @@ class C08(C02):
             yield op
 
     def monitor(self, ex, i, op, res, cfg):
+        if op["op"] == "ci_run" and "ci" in ex.repos:
+            ex.probe("ci.checked")
+            for repo in (ex.repos["ci"], ex.w.root + "/remote.git"):
+                v = self.scan(ex, i, op, cfg, repo)
+                if v:
+                    return v
+            return None
         if op["op"] not in ("git", "edit"):
             return None
-        repo = ex.repo(op)
+        return self.scan(ex, i, op, cfg, ex.repo(op))
+
+    def scan(self, ex, i, op, cfg, repo):
         mode = cfg.get("effective")
         if i == 0:
             ex.probe("mode." + mode)
